@@ -63,7 +63,7 @@ def required(tier):
            'threads:four-evaluating-one-model',
            'result-object:modified-by-caller-then-same-state-again',
            'ptf:through-the-command-line-tool-into-an-existing-file',
-           'table:values-do-not-vary-with-mass']
+           'table:values-do-not-vary-with-mass', 'ptf:row-with-blank-climb-cell']
     return {'classes': cl, 'evaluations': 3000}
 
 
@@ -499,9 +499,13 @@ def run_shard(spec, rec):
                 for fl, r in sp['rows'].items():
                     alt = fl * FL_TO_METERS if rng.random() < 0.5 else fl / METERS_TO_FL
                     probes = []
-                    c = r['climb']
-                    for tag, ro in (('lo', c[1]), ('nom', c[2]), ('hi', c[3])):
-                        probes.append(('climb', masses[tag], (c[0] * KT, ro * FPM, c[4] / 60.0)))
+                    if 'climb' in r:
+                        c = r['climb']
+                        for tag, ro in (('lo', c[1]), ('nom', c[2]), ('hi', c[3])):
+                            probes.append(('climb', masses[tag],
+                                           (c[0] * KT, ro * FPM, c[4] / 60.0)))
+                    else:
+                        rec.cls('ptf:row-with-blank-climb-cell')
                     d = r['descent']
                     probes.append(('descent', masses['nom'], (d[0] * KT, -d[1] * FPM, d[2] / 60.0)))
                     if 'cruise' in r:
@@ -514,7 +518,7 @@ def run_shard(spec, rec):
                             got = ev(m2, ph, alt, float(mass))
                         except Exception as e:  # noqa: BLE001
                             fls_ph = sorted(x for x, rr in sp['rows'].items()
-                                            if ph != 'cruise' or 'cruise' in rr)
+                                            if ph == 'descent' or ph in rr)
                             back = alt * METERS_TO_FL
                             if fl in (fls_ph[0], fls_ph[-1]) and (back > fls_ph[-1]
                                                                   or back < fls_ph[0]):
